@@ -2417,6 +2417,21 @@ def r03_18(ctx, counts) -> RuleResult:
                 elif name not in defs and ann.get(name) == 'float':
                     ok_reason = 'parameter annotated float'
             if ok_reason is None:
+                # the guard or the body of `case float():` in a match on the same name
+                for mt in walk_local(f.node):
+                    if isinstance(mt, ast.Match) and stmt_text(mt.subject) == name:
+                        for case in mt.cases:
+                            pats = case.pattern.patterns if isinstance(
+                                case.pattern, ast.MatchOr) else [case.pattern]
+                            if pats and all(isinstance(p_, ast.MatchClass) and dotted(
+                                    p_.cls).split('.')[-1] in ('float', 'Float', 'DoubleProxy')
+                                    for p_ in pats):
+                                inside = (case.guard is not None and any(
+                                    y is c for y in ast.walk(case.guard))) or any(
+                                    y is c for b in case.body for y in ast.walk(b))
+                                if inside:
+                                    ok_reason = 'case float()'
+            if ok_reason is None:
                 # (a) same `and`
                 par = parent_of.get(id(c))
                 node = c
